@@ -4,11 +4,14 @@
    state identical.  Rejections of auto-borrow order requests, where loans were already created and are rolled
    back: in every reachable state balances, holds, borrowed amounts, orders, reservations and the set of open loans
    are restored exactly (the cancelled loans stay in the list, closed); the roll-back cannot itself fail, and once the
-   borrowing succeeded the reservation cannot fail either (AtomicProofs.v).  C07_partial: a cancellation of an open
-   order that fails while releasing its holds (never observed; covered by the correspondence check and the monitor). *)
+   borrowing succeeded the reservation cannot fail either (AtomicProofs.v).  Cancellations: in every reachable state a cancellation request that raises has changed nothing at all
+   (it failed for an unknown or closed order, or in the up-front pricing of the open loans -- repair D16); past that
+   point releasing the holds passes every rule and the repayment loop can only skip loans for lack of funds, so the
+   cancellation goes through (CancelProofs.v, AutoRepayProofs.v).  Nothing of the property is left unproved at the level
+   of the model; the tie to the code is the correspondence check and the before/after snapshot monitor. *)
 From Coq Require Import ZArith QArith List.
 From Basana Require Import Num.DecQ Exchange.Model Exchange.AcctProofs Exchange.StepProofs Exchange.OpProofs
-     Exchange.HoldProofs Exchange.AtomicProofs.
+     Exchange.HoldProofs Exchange.Prims Exchange.Structure Exchange.AtomicProofs Exchange.CancelProofs Exchange.AutoRepayProofs.
 Import ListNotations.
 Open Scope Q_scope.
 
@@ -70,6 +73,24 @@ Theorem C07_reservation_after_borrowing_succeeds : forall c s req lids sb p,
   exists s', upd_acct c sb [] req [] = Done s' tt.
 Proof. exact hold_after_borrow. Qed.
 Print Assumptions C07_reservation_after_borrowing_succeeds.
+
+(* in every reachable state the cancellation of an open order that does not auto-repay (or has not traded) succeeds:
+   a cancellation request only fails for unknown or closed orders, and then nothing changes (C07_cancel_not_open) *)
+Theorem C07_cancelling_an_open_order_cannot_fail : forall c initial ops id o,
+  cfg_ok c -> ops_ok ops -> NoDup (map fst initial) -> (forall kv, In kv initial -> 0 <= snd kv) ->
+  let s := run c (init_st initial) ops in
+  get_order s id = Some o -> is_open o = true -> o_ar o && negb (Qzero (filled o)) = false ->
+  exists s', cancel_order c s id = Done s' tt.
+Proof. exact cancel_reachable. Qed.
+Print Assumptions C07_cancelling_an_open_order_cannot_fail.
+
+(* in every reachable state a cancellation request that raises -- whatever the reason -- has changed nothing *)
+Theorem C07_failed_cancellation_changes_nothing : forall c initial ops id s' e,
+  cfg_ok c -> ops_ok ops -> NoDup (map fst initial) -> (forall kv, In kv initial -> 0 <= snd kv) ->
+  let s := run c (init_st initial) ops in
+  cancel_order c s id = Fail s' e -> s' = s.
+Proof. exact cancel_fail_unchanged_reachable. Qed.
+Print Assumptions C07_failed_cancellation_changes_nothing.
 
 Example C07_nonvacuous :
   let c := mkCfg [(1%positive, 2%nat); (2%positive, 2%nat)] [] None NoFee InfLiq NoLoans in
